@@ -1,7 +1,7 @@
 """C13 — client transactions end in bounded time with a result and recover (structural conditions)."""
 import ast
 
-from ..common import Ctx, U, AnalysisError, callee_name, annotate, annotated_copy, Poly, NotInt, SelfResolver, contradictory
+from ..common import Ctx, U, AnalysisError, callee_name, annotate, annotated_copy, Poly, NotInt, SelfResolver, contradictory, ret_expr
 from ..txmodel import TxShape
 from ..framermodel import FRAMER_CLASSES, framer_paths
 
@@ -177,6 +177,49 @@ def r20_every_attempt_connects(ck, cx, sh, rule='R20'):
           message='a retry can transmit without client.connect(): the handler of the failed attempt closed the transport, so the retry runs on a closed socket and '
                   'its ConnectionException escapes the client call instead of a reply or an error object being returned')
     ck.floor(rule, n, 3, 'send sites / attempts examined')
+
+
+def r23_decode_data_invents_nothing(ck, cx, rule='R23'):
+    """The retry loop asks the framer what a reply says about itself (`decode_data(response).get('unit') == request.unit_id`,
+    `'length' in mbap`).  For data that is too short to hold the header -- the empty reply of a timed-out attempt above all -- the
+    honest answer is "nothing": a dictionary without those keys.  A decode_data() that fills in defaults (unit 0, length 0) makes an
+    empty reply look like a reply from unit 0, and the loop stops retrying for requests to that unit."""
+    ck.rule(rule, 'decode_data() of every framer reports only fields it parsed from the data: a path that unpacks nothing returns no unit / length / fcode keys')
+    from ..framermodel import FRAMER_CLASSES
+    n = 0
+    for kind, qn in sorted(FRAMER_CLASSES.items()):
+        cls = cx.idx.cls(qn)
+        f = cx.idx.find_method(cls, 'decode_data')
+        if f is None:
+            continue
+        ck.saw('functions', f.qn)
+        data = f.params[1]
+        for p in cx.enum(f, cls, max_depth=1):
+            if p.exit and p.exit[0] == 'exc':
+                continue
+            annotate(p, heap=False)
+            r = ret_expr(p)
+            n += 1
+            if r is None:
+                continue
+            keys = set()
+            if isinstance(r, ast.Dict):
+                keys = {k.value for k in r.keys if isinstance(k, ast.Constant)}
+            elif isinstance(r, ast.Call) and callee_name(r) == 'dict':
+                keys = {k.arg for k in r.keywords if k.arg}
+            if not keys:
+                folded = cx.ce.try_ev(r, f.mod, cls, default=None)       # dict(zip(NAMES, (0, 0, ...))) and the like
+                if isinstance(folded, dict):
+                    keys = set(folded)
+                elif isinstance(r, ast.Call) and callee_name(r) == 'dict' and len(r.args) == 1 and isinstance(r.args[0], ast.Call) and callee_name(r.args[0]) == 'zip' and r.args[0].args:
+                    k0 = cx.ce.try_ev(r.args[0].args[0], f.mod, cls, default=None)
+                    keys = set(k0) if isinstance(k0, (tuple, list)) else keys
+            parsed = any(isinstance(x, ast.Name) and x.id == data for x in ast.walk(r))
+            bad = sorted(keys & {'unit', 'uid', 'length', 'fcode', 'tid'}) if not parsed else []
+            ck.ob(rule, f.qn, 'a return that parses nothing from the data carries no header keys', not bad, detail='decode-data-invents %s' % ','.join(bad), loc=cx.floc(f),
+                  message='%s framer: decode_data() returns %s without having read them from the data (too short a reply, an empty one above all): the transaction manager '
+                          'takes an empty reply for a reply from unit %s and stops retrying' % (kind, bad, 'that value'))
+    ck.floor(rule, n, 4, 'return paths of decode_data over the framers')
 
 
 def _anc(n):
@@ -829,6 +872,7 @@ def run(ck, tier):
     ck.guard(r3_escape, ck, cx, sh)
     ck.guard(r4_state, ck, cx, sh)
     ck.guard(r20_every_attempt_connects, ck, cx, sh)
+    ck.guard(r23_decode_data_invents_nothing, ck, cx)
     ck.assume('wall-clock bounds of the transports\' blocking calls and _wait_for_data with timeout=None are not decided')
     ck.assume('that a following transaction returns the correct reply is not decided (C08 decides the pairing structure)')
     from .. import ownership as _own
